@@ -6,8 +6,9 @@ CONSTANTS
   Atoms <- AtomsPoss
   Prefix <- PfxNone
   MaxLen = 6
+  MaxAtoms = 99
   Cfgs <- CfgsNA18
   Junk = 34
   EmitOn = TRUE
-INVARIANTS ResumeEqFresh Stable OffsSane Emit
+INVARIANTS ResumeEqFresh Stable OffsSane Emit EmitTwo EmitByte
 CHECK_DEADLOCK FALSE
